@@ -556,7 +556,11 @@ func c15Generate(r *rand.Rand) *c15Case {
 		}
 		a = append(a, c15Item{single: `include "b.knut"`})
 		cs.files["train.knut"] = []byte(c15Render(r, main, lay()))
-		cs.files["sub/a.knut"] = []byte(c15Render(r, a, lay()))
+		la := lay()
+		if r.Intn(2) == 0 {
+			la.noEOL = true // the include is the last thing in the file, without a final newline
+		}
+		cs.files["sub/a.knut"] = []byte(c15Render(r, a, la))
 		cs.files["sub/b.knut"] = []byte(c15Render(r, bb, lay()))
 		cs.files["c.knut"] = []byte(c15Render(r, cc, lay()))
 	case cs.kind != "empty":
